@@ -28,6 +28,7 @@ import (
 	"verif/internal/cqlgen"
 	"verif/internal/cqlref"
 	"verif/internal/mon"
+	"verif/internal/scribble"
 )
 
 func main() { mon.Main("C11", run) }
@@ -59,6 +60,16 @@ func probe(cs cqlgen.Case) *cqlgen.Failure {
 
 	// same representation
 	dest, eff, val := cqlgen.TopDest(cs.Repr)
+	// when this case is over, edit in place what it decoded (arithmetic on a decoded *big.Int, bytes of a decoded
+	// blob, elements of a decoded list): a codec that hands out objects it keeps using returns the damage later
+	var any interface{} = "sentinel"
+	defer func() {
+		n := scribble.Over(dest)
+		if any != nil && any != interface{}("sentinel") {
+			n += scribble.Over(&any)
+		}
+		atomic.AddInt64(&scribbled, int64(n))
+	}()
 	wasNull, err, pan := cqlgen.SafeDecode(codec, b, dest, ver)
 	if pan != "" {
 		return &cqlgen.Failure{Stage: "decode-panic", Msg: pan, LibHex: lib}
@@ -87,14 +98,13 @@ func probe(cs cqlgen.Case) *cqlgen.Failure {
 		if _, _, pan := cqlgen.SafePreferredGoType(dt); pan != "" {
 			return &cqlgen.Failure{Stage: "untyped", Key: key, Msg: "PreferredGoType panics: " + pan, LibHex: lib}
 		}
-		var any interface{}
-		if _, _, pan := cqlgen.SafeDecode(codec, b, &any, ver); pan != "" {
+		var any2 interface{}
+		if _, _, pan := cqlgen.SafeDecode(codec, b, &any2, ver); pan != "" {
 			return &cqlgen.Failure{Stage: "untyped", Key: key, Msg: "Decode into *interface{} panics: " + pan, LibHex: lib}
 		}
 		atomic.AddInt64(&untypedSkipped, 1)
 		return nil
 	}
-	var any interface{} = "sentinel"
 	wasNull, err, pan = cqlgen.SafeDecode(codec, b, &any, ver)
 	if pan != "" {
 		return &cqlgen.Failure{Stage: "untyped-panic", Msg: pan, LibHex: lib}
@@ -139,6 +149,7 @@ var (
 	reuseJudged   int64
 	reuseSkipped  int64 // no different value could be derived / pre-fill failed: not judged
 	reuseSameFill int64
+	scribbled     int64 // locations of decoded values edited in place after their case
 )
 
 // reuseProbe decodes b (the encoding of the case's value) into a destination of the case's
@@ -318,6 +329,7 @@ func run(c *mon.Ctx) {
 	c.Count("reused_destination_decodes_judged", atomic.LoadInt64(&reuseJudged))
 	c.Count("reused_destination_skipped_no_prefill", atomic.LoadInt64(&reuseSkipped))
 	c.Count("reused_destination_prefill_equal_to_value", atomic.LoadInt64(&reuseSameFill))
+	c.Count("locations_of_decoded_values_edited_in_place", atomic.LoadInt64(&scribbled))
 	c.Count("reused_go_map_kept_old_entries_not_judged", atomic.LoadInt64(&cqlgen.ReusedMapKeptOldEntries))
 	c.Count("untyped_check_skipped_no_go_type_for_preferred", atomic.LoadInt64(&untypedSkipped))
 	c.Count("preferred_type_compared_with_doc", atomic.LoadInt64(&preferredChecked))
